@@ -313,7 +313,27 @@ func GenTypes(t *rapid.T, o *Opts) *Spec {
 		o.MinDecls = 2
 	}
 	rootName := pkgNames[rapid.IntRange(0, len(pkgNames)-1).Draw(t, "rootPkg")]
-	root := &Pkg{Name: rootName, Path: Module + "/" + rootName}
+	module := Module
+	root := &Pkg{Name: rootName, Path: module + "/" + rootName}
+	if o.ShortModule {
+		switch rapid.IntRange(0, 5).Draw(t, "moduleForm") {
+		case 0:
+			// the analysed package is the root of a two-element module
+			module = "verif.test/" + rootName
+			root = &Pkg{Name: rootName, Path: module, Mod: module}
+			o.class("pkg:import_path_of_two_elements")
+		case 1:
+			// a one-element module
+			module = "shop"
+			root = &Pkg{Name: rootName, Path: module + "/" + rootName, Mod: module}
+			o.class("pkg:import_path_of_two_elements")
+		case 2:
+			module = "shop"
+			root = &Pkg{Name: "shop", Path: module, Mod: module}
+			rootName = "shop"
+			o.class("pkg:import_path_of_one_element")
+		}
+	}
 	root.Files = []*File{{Name: "defs.go"}, {Name: "other.go"}}
 	g.spec.Pkgs = []*Pkg{root}
 
@@ -339,12 +359,17 @@ func GenTypes(t *rapid.T, o *Opts) *Spec {
 					dup = true
 				}
 			}
-			if dup {
-				continue
-			}
 			parent := root.Path
 			if rapid.Bool().Draw(t, "subSibling") {
-				parent = Module
+				parent = module
+			}
+			if dup {
+				if !o.SameNamePkgs || g.spec.PkgByPath(module+"/alt/"+sn) != nil || sn == rootName {
+					continue
+				}
+				// two imported packages sharing their name (v1/models and v2/models)
+				parent = module + "/alt"
+				o.class("pkg:two_packages_same_name")
 			}
 			dir := sn
 			switch rapid.IntRange(0, 7).Draw(t, "subDirForm") {
@@ -357,7 +382,7 @@ func GenTypes(t *rapid.T, o *Opts) *Spec {
 				dir = "go-" + sn
 				o.class("pkg:directory_differs_from_name")
 			}
-			sp := &Pkg{Name: sn, Path: parent + "/" + dir, Files: []*File{{Name: sn + ".go"}}}
+			sp := &Pkg{Name: sn, Path: parent + "/" + dir, Files: []*File{{Name: sn + ".go"}}, Mod: root.Mod}
 			// insert after root so that later subs can be imported by earlier ones? keep simple: subs do not import each other
 			g.spec.Pkgs = append(g.spec.Pkgs, sp)
 			g.fillPackage(sp, sp.Files[0], sp.Files[0], rapid.IntRange(1, 4).Draw(t, "nSubDecls"), false)
@@ -419,6 +444,9 @@ func GenTypes(t *rapid.T, o *Opts) *Spec {
 	}
 	if o.Recursion && rapid.IntRange(0, 3).Draw(t, "recursion") == 0 {
 		g.addRecursion(root)
+	}
+	if o.NamedRecursion && rapid.IntRange(0, 5).Draw(t, "namedRecursion") == 0 {
+		g.addNamedRecursion(root)
 	}
 	if o.Aliases && rapid.IntRange(0, 4).Draw(t, "alias") == 0 {
 		g.addAlias(root)
@@ -578,6 +606,42 @@ func (g *gen) addRecursion(pkg *Pkg) {
 		g.o.class("graph:self_recursion")
 	}
 	a.hasUnion = a.hasUnion || b.hasUnion
+}
+
+// addNamedRecursion declares named containers that contain themselves without any struct on the cycle:
+// type Tree map[string]Tree, type Nest []Nest, or two named containers referring to each other.
+func (g *gen) addNamedRecursion(pkg *Pkg) {
+	t := g.t
+	file := pkg.Files[0]
+	con := func(label string, ref *TypeRef) *TypeRef {
+		switch rapid.IntRange(0, 3).Draw(t, label) {
+		case 0:
+			return Slice(ref)
+		case 1:
+			return Map(Basic("int"), ref)
+		case 2:
+			return Slice(Slice(ref))
+		}
+		return Map(Basic("string"), ref)
+	}
+	cat := func(tr *TypeRef) string {
+		if tr.K == TMap {
+			return "map"
+		}
+		return "slice"
+	}
+	an := g.freshName(pkg, "nrA", true)
+	if rapid.Bool().Draw(t, "nrMutual") {
+		bn := g.freshName(pkg, "nrB", true)
+		ta, tb := con("nrKindA", Ref(pkg.Path, bn)), con("nrKindB", Ref(pkg.Path, an))
+		g.newDecl(pkg, file, &Decl{Kind: KNamed, Name: an, Type: ta}, &tinfo{cat: cat(ta)})
+		g.newDecl(pkg, file, &Decl{Kind: KNamed, Name: bn, Type: tb}, &tinfo{cat: cat(tb)})
+		g.o.class("graph:mutual_named_container_recursion")
+		return
+	}
+	ta := con("nrKindA", Ref(pkg.Path, an))
+	g.newDecl(pkg, file, &Decl{Kind: KNamed, Name: an, Type: ta}, &tinfo{cat: cat(ta)})
+	g.o.class("graph:named_container_self_recursion")
 }
 
 func (g *gen) addAlias(pkg *Pkg) {
